@@ -30,7 +30,8 @@ COMPONENTS = {
     "stub": ["physical storage (batches of cards)", "auditors fetching by (batch, position)", "manifest spreadsheet"],
 }
 PROBES = ["empty batch crossed", "phantom batch hit", "leading empty batch", "trailing empty batch", "manifest larger than bound",
-          "manifest smaller than CVR count", "single batch", "whole range sampled", "phantom CVR in CVR-driven lookup"]
+          "manifest smaller than CVR count", "single batch", "whole range sampled", "phantom CVR in CVR-driven lookup",
+          "another manifest looked up earlier in the same process", "prepared manifest prepared again"]
 
 
 def generate(rng, tier):
@@ -55,9 +56,22 @@ def generate(rng, tier):
     rng.shuffle(sample)
     if mode == "subset" and sample:
         sample = sample[: rng.randint(1, len(sample))]
+    # other storage layouts looked up earlier in the same process (an earlier county, an earlier round): same number
+    # of batches and the same total, other sizes
+    prelude = []
+    for _ in range(rng.randint(0, 2)):
+        alt = list(sizes)
+        rng.shuffle(alt)
+        if len(alt) >= 2 and rng.chance(0.7):
+            i, j = rng.sample(range(len(alt)), 2)
+            mv = rng.randint(0, alt[i])
+            alt[i] -= mv
+            alt[j] += mv
+        prelude.append(alt)
     n_ph = max(0, bound - total)
     n_list = total + n_ph  # the CVR list a comparison audit samples from: one CVR per card, then phantom CVRs
-    return {"vendor": vendor, "batches": batches, "bound": bound, "n_cvrs": n_cvrs, "sample": sample,
+    return {"vendor": vendor, "batches": batches, "bound": bound, "n_cvrs": n_cvrs, "sample": sample, "prelude": prelude,
+            "reprep": rng.pick([None, None, "same", "larger", "smaller"]),
             "cvr_sample": rng.sample(range(n_list), rng.randint(0, min(n_list, 12))) if n_list else []}
 
 
@@ -87,6 +101,18 @@ def execute(case):
         out.probe("leading empty batch")
     if sizes[-1] == 0:
         out.probe("trailing empty batch")
+    # ---- earlier lookups in the same process (their result is not judged; they only precede the one that is)
+    for alt in case.get("prelude", []):
+        try:
+            c2 = dict(case, batches=[dict(b, n=a) for b, a in zip(batches, alt)])
+            with W.quiet():
+                m2, _c, _p = V.prep_manifest(raw_manifest(c2), max(bound, total), 0)
+                lo_ = 1 if vendor == "dominion" else 0
+                V.sample_from_manifest(m2, list(range(lo_, lo_ + max(bound, total))))
+            out.probe("another manifest looked up earlier in the same process")
+            out.ev("prelude", alt)
+        except Exception as e:
+            out.raised("prelude", e)
     # ---- C17.e prep_manifest
     must_refuse = total > bound or total < n_cvrs
     if total > bound:
@@ -132,6 +158,26 @@ def execute(case):
         if c_ != acc:
             out.violate("C17.e", f"{vendor}/cumulative", f"cumulative counts {cum} do not match sizes {exp_sizes}")
             break
+    # ---- C17.e again: a prepared manifest that is prepared once more (a later round, a revised bound)
+    rp = case.get("reprep")
+    if rp and vendor == "dominion" and not out.violations:
+        b2 = {"same": bound, "larger": bound + 3, "smaller": bound - 1}[rp]
+        out.probe("prepared manifest prepared again")
+        try:
+            with W.quiet():
+                man2, mc2, ph2 = V.prep_manifest(man.copy(), b2, n_cvrs)
+            sz2 = [int(x) for x in man2[size_col]]
+            out.ev("reprep", [rp, int(mc2), int(ph2), sz2])
+            if rp == "smaller":
+                out.violate("C17.e", f"{vendor}/reprep-accepted", f"a manifest accounting for {bound} cards was accepted against a bound of {b2}")
+            elif sum(sz2) != b2 or int(mc2) != bound or int(ph2) != b2 - bound:
+                out.violate("C17.e", f"{vendor}/reprep-total", f"a manifest already accounting for {bound} cards, prepared again with bound "
+                                                               f"{b2}: reports {mc2} cards, {ph2} phantoms, accounts for {sum(sz2)}")
+        except Exception as e:
+            out.raised("prep_manifest(again)", e)
+            out.ev("reprep", [rp, "raised", type(e).__name__])
+            if rp != "smaller":
+                out.violate("C17.e", f"{vendor}/reprep-raised-{type(e).__name__}", f"preparing an already prepared manifest (bound {bound} -> {b2}) raised {e!r}")
     # ---- C17.a-c lookup over the (whole) valid range
     sample = case["sample"]
     lo = 1 if vendor == "dominion" else 0
@@ -228,6 +274,7 @@ def reducers(case):
         n = c["batches"][i]["n"]
         del c["batches"][i]
         c["bound"] -= n
+        c["prelude"] = []
         c["n_cvrs"] = min(c["n_cvrs"], sum(b["n"] for b in c["batches"]))
         lo = 1 if c["vendor"] == "dominion" else 0
         c["sample"] = [s for s in c["sample"] if lo <= s < lo + c["bound"]]
@@ -238,6 +285,7 @@ def reducers(case):
         if b["n"] > 0:
             c = copy.deepcopy(case)
             c["batches"][i]["n"] -= 1
+            c["prelude"] = []
             c["bound"] -= 1
             tot = sum(x["n"] for x in c["batches"])
             c["n_cvrs"] = min(c["n_cvrs"], tot) if case["n_cvrs"] <= sum(x["n"] for x in case["batches"]) else tot + 1
@@ -246,6 +294,15 @@ def reducers(case):
             c["cvr_sample"] = [s for s in c["cvr_sample"] if s < tot]
             if c["bound"] >= 0 and tot > 0:
                 yield c
+    if case.get("prelude"):
+        for i in range(len(case["prelude"])):
+            c = copy.deepcopy(case)
+            del c["prelude"][i]
+            yield c
+    if case.get("reprep"):
+        c = copy.deepcopy(case)
+        c["reprep"] = None
+        yield c
     if len(case["sample"]) > 1:
         for i in range(len(case["sample"])):
             c = copy.deepcopy(case)
